@@ -30,6 +30,7 @@ LocateOK(e) ==
       idx(u) == CHOOSE j \in 0..Dim(s) : VertexAt(d, s, j) = u   \* position of a vertex in the chain
   IN
   /\ Len(e.y) = d /\ PointOK(e)
+  /\ ~Has(e, "off_lattice")                   \* coordinates of dyadic data computed by exact operations are dyadic
   /\ WellFormed(d, s)
   /\ InRelInt(d, e.S, e.y, s)                 \* all barycentric weights > 0: relative interior
   /\ s = Locate(d, e.S, e.y)                  \* hence the unique such simplex
